@@ -2,6 +2,7 @@ package schedule
 
 import (
 	"container/heap"
+	"math"
 	"sort"
 
 	"github.com/projecteru2/core/resource/plugins/cpumem/types"
@@ -182,7 +183,7 @@ func newHost(cpuMap types.CPUMap, shareBase int, maxFragmentCores int) *host {
 }
 
 func (h *host) getCPUPlans(cpuRequest float64) []types.CPUMap {
-	piecesRequest := int(cpuRequest * float64(h.shareBase))
+	piecesRequest := int(math.Round(cpuRequest * float64(h.shareBase)))
 	full := piecesRequest / h.shareBase
 	fragment := piecesRequest % h.shareBase
 
